@@ -44,6 +44,11 @@ class AsyncManager(BaseManager):
             for sid, eio_sid in self.get_participants(namespace, room):
                 if sid not in skip_sid:
                     for p in eio_pkt:
+                        if p.binary:
+                            # the encoding of a binary packet depends on the
+                            # transport of its recipient and is cached in
+                            # the packet, so these are not shared
+                            p = eio_packet.Packet(eio_packet.MESSAGE, p.data)
                         tasks.append(asyncio.create_task(
                             self.server._send_eio_packet(eio_sid, p)))
         else:
